@@ -43,6 +43,15 @@ type sel struct {
 	rule  string
 	match *regexp.Regexp // nil = all
 	not   *regexp.Regexp // nil = none excluded
+	opt   bool           // the rule is conditional on a code pattern (equality trigger, direct-mapped slot, injection …):
+	// zero instances is a legitimate outcome, not an unresolved anchor
+}
+
+// so is an optional selector.
+func so(rule string, pat ...string) sel {
+	x := s(rule, pat...)
+	x.opt = true
+	return x
 }
 
 func (sl sel) selects(ob Obligation) bool {
